@@ -314,7 +314,12 @@ var (
 	wdName   atomic.Pointer[string]
 )
 
-const blockedWall = 60 * time.Second
+var blockedWall = 60 * time.Second
+
+// SetBlockedWall changes how long a call may be in flight WITHOUT the process
+// using CPU before it is declared blocked forever (processes whose calls all
+// take microseconds can use a much shorter time than the default minute).
+func SetBlockedWall(d time.Duration) { blockedWall = d }
 
 func processCPU() int64 {
 	var ru syscall.Rusage
